@@ -48,7 +48,7 @@ fn main() {
                 idle = 0;
                 last = now;
             }
-            if idle >= 600 {
+            if idle >= 180 {
                 println!("INCONCLUSIVE: watchdog: no progress for {idle} s");
                 std::process::exit(2);
             }
